@@ -458,15 +458,19 @@ def check_conversion(fmt, variant, opts, workdir):
 
 
 # ------------------------------------------------------------------------------------------------
-def all_selections(n):
+def all_selections(n, negative_steps=False):
     rng = [None] + list(range(-n, n + 1))
-    for a, b, s in itertools.product(rng, rng, [None] + list(range(1, n + 1))):
+    steps = [None] + list(range(1, n + 1)) + ([-1, -2, -n] if negative_steps else [])
+    for a, b, s in itertools.product(rng, rng, steps):
         if list(range(n))[slice(a, b, s)]:
             yield ['slice', a, b, s]
     for k in range(1, n + 2):
         yield ['sample', k]
 
 
+# Python slice semantics include negative steps.  The LIS frame loader documents step >= 1 only (C06), so they are enumerated
+# for the formats whose converters take any slice.
+NEGATIVE_STEP_FORMATS = ('rp66', 'bit')
 DEFAULT = {'sel': None, 'channels': [], 'reduction': 'first', 'width': 16, 'fmt': '.3f'}
 CHANNEL_SETS = {'rp66': [[], ['GR'], ['WAVE', 'GR'], ['NOPE'], ['DEPT']], 'lis': [[], ['GR  '], ['SP  ', 'GR  '], ['NOPE']],
                 'bit': [[], ['COND'], ['NOPE']]}
@@ -474,7 +478,7 @@ CHANNEL_SETS = {'rp66': [[], ['GR'], ['WAVE', 'GR'], ['NOPE'], ['DEPT']], 'lis':
 
 def gen_cases(tier, fmt):
     # part S
-    for sel in all_selections(N):
+    for sel in all_selections(N, negative_steps=(fmt in NEGATIVE_STEP_FORMATS)):
         yield {'variant': {}, 'opts': dict(DEFAULT, sel=sel)}
     if tier == 'thorough':
         for sel in all_selections(10):
